@@ -12,29 +12,26 @@
   * `C04_init`          : the configured defaults are the initial state;
   * `C04_monitor_*`     : the monitor evaluated on the implementation, on the model.
 
-  PARTIAL (`_partial`): octave and semitone are `int8` in the code.  `C04_unit_step_partial`, `C04_init_partial` and
-  `C04_monitor_nowrap` carry the hypothesis that the value stays strictly inside −128..127 / the defaults fit;
-  `C04_wrap_witness` machine-checks that the hypothesis is needed (127 + 1 = −128).
+  Octave and semitone were `int8` in the code (the 128th `octave_up` wrapped to −128, `defaults.octave = 200` became −56);
+  the repository keeps them in `int` now (`C04_source_facts`), the model adds in ℤ, and `C04_unit_step`, `C04_init` and
+  `C04_monitor` hold without any range hypothesis.  `C04_wrap_witness_pre_fix` records what int8 did.
 -/
 import HidiProofs.KeyHistories
 import HidiProofs.Props.C03
+import Hidi.Gen.Tables
 namespace Hidi.Props.C04
 open Hidi Hidi.Spec Hidi.EngineSim Hidi.KeyHist
 
-/-- on key-only histories the only monitor failures of the model are the int8 wrap-around ones -/
-theorem C04_monitor_partial (cfg : Config) (evs : List Ev) (disc : Bool)
+/-- the monitor evaluated on the implementation never fires on the model: no C04 failure (nor any other) on any key-only
+    history of an accepted configuration -/
+theorem C04_monitor (cfg : Config) (evs : List Ev) (disc : Bool)
     (hacc : Accepted cfg = true) (hk : evs.all keyOnly = true) :
-    ∀ f ∈ failsOf "C04" (checkAll (modelTrace cfg evs disc)),
-      f.clause = "state-evolution" ∨ f.clause = "initial-state" := by
-  intro f hf
-  unfold failsOf at hf
-  exact (key_histories cfg evs disc hacc hk f (List.mem_filter.mp hf).1).2
-
-/-- with defaults that fit and octave / semitone strictly inside the int8 range: no failure at all -/
-theorem C04_monitor_nowrap (cfg : Config) (evs : List Ev) (disc : Bool)
-    (hacc : Accepted cfg = true) (hk : evs.all keyOnly = true) (hw : NoWrap cfg evs) :
     checkAll (modelTrace cfg evs disc) = [] :=
-  key_histories_nowrap cfg evs disc hacc hk hw
+  key_histories_all cfg evs disc hacc hk
+
+/-- octave and semitone are plain `int` fields of `Device` (regenerated from device.go): they were `int8`, which wrapped at
+    the 128th step and truncated configured defaults — the defect repaired in the repository -/
+theorem C04_source_facts : Gen.dev_octave_type = "int" ∧ Gen.dev_semitone_type = "int" := by decide
 
 /-- the specification's note/channel formula, spelled out -/
 theorem C04_resolve (cfg : Config) (s : StObs) (vel : Nat) (sub : Sub) (code : Code) (m : Mapping) (k : Key)
@@ -66,16 +63,14 @@ theorem C04_press_fresh {cfg : Config} {d : Dev} (hd : DInv cfg d)
   simp only [C03.pressSpec, hfresh]
   cases cfg.mode <;> rfl
 
-/-- **unit steps / saturation** (partial: no int8 wrap in the resulting state) -/
-theorem C04_unit_step_partial {cfg : Config} {d : Dev} (hd : DInv cfg d) (a : Action)
-    (hw : nowrap (d.invokePress a).1) :
+/-- **unit steps / saturation**: octave and semitone move by exactly one (in ℤ, no wrap-around), channel and mapping
+    move by one and saturate at the ends; every other action leaves the four values alone -/
+theorem C04_unit_step {cfg : Config} {d : Dev} (hd : DInv cfg d) (a : Action) :
     stateKeyOf (StObs.ofDev (d.invokePress a).1) = actionEffect cfg (StObs.ofDev d) a :=
-  invokePress_state hd a hw
+  invokePress_state hd a trivial
 
-/-- the hypothesis is needed: at octave 127 `octave_up` yields −128 (int8), not 128 -/
-theorem C04_wrap_witness :
-    ∃ d : Dev, d.octave = 127 ∧ (d.invokePress .octaveUp).1.octave = -128 :=
-  ⟨{ (Dev.init C03.exCfg) with octave := 127 }, rfl, by decide⟩
+/-- what int8 arithmetic would have done at the edge (the pre-fix behaviour): 127 + 1 = −128 -/
+theorem C04_wrap_witness_pre_fix : wrap8 (127 + 1) = -128 ∧ wrap8 200 = -56 := by decide
 
 /-- **pair reset**: when the tracked actions contain exactly one complete pair, `checkDoubleActions` resets that
     parameter to neutral and changes nothing else of the state -/
@@ -95,16 +90,13 @@ theorem C04_bounds {cfg : Config} (hacc : Accepted cfg = true) {evs : List Ev} (
   have := C02.reachable_dinv hacc hk
   exact ⟨this.ch, this.map⟩
 
-/-- **initial state** (partial: defaults that fit int8) -/
-theorem C04_init_partial (cfg : Config) (h1 : -128 ≤ cfg.defOct ∧ cfg.defOct ≤ 127)
-    (h2 : -128 ≤ cfg.defSemi ∧ cfg.defSemi ≤ 127) (h3 : 1 ≤ cfg.defCh ∧ cfg.defCh ≤ 16) :
+/-- **initial state**: the configured defaults, whatever their size -/
+theorem C04_init (cfg : Config) (h3 : 1 ≤ cfg.defCh ∧ cfg.defCh ≤ 16) :
     (Dev.init cfg).octave = cfg.defOct ∧ (Dev.init cfg).semitone = cfg.defSemi ∧
     ((Dev.init cfg).channel : Int) = cfg.defCh - 1 ∧ (Dev.init cfg).mapping = cfg.defMap ∧
     (Dev.init cfg).velocity = u8 cfg.vel := by
-  refine ⟨?_, ?_, ?_, rfl, rfl⟩
-  · simp only [Dev.init, wrap8]; omega
-  · simp only [Dev.init, wrap8]; omega
-  · simp only [Dev.init, u8]; omega
+  refine ⟨rfl, rfl, ?_, rfl, rfl⟩
+  simp only [Dev.init, u8]; omega
 
 /-! ### non-vacuity -/
 
@@ -116,11 +108,7 @@ def exCfg : Config :=
 /-- octave 1, semitone −2, channel 15 (index 14) + offset 3 = channel index 1; after octave_up: 60+24−2 = 82 -/
 example : ((Dev.init exCfg).run [.key "" 30 1, .key "" 30 0, .key "" 59 1, .key "" 30 1]).2 =
     [[noteOnMsg 1 70 100], [noteOffMsg 1 70], [], [noteOnMsg 1 82 100]] := by decide
-example : NoWrap exCfg [.key "" 59 1] := by
-  refine ⟨by decide, by decide, by decide, by decide, ?_⟩
-  intro st hst
-  simp [modelTrace, modelSteps] at hst
-  subst hst
-  decide
+/-- from octave 127 one more octave-up gives 128, not −128 -/
+example : (({ (Dev.init exCfg) with octave := 127 }).invokePress .octaveUp).1.octave = 128 := by decide
 
 end Hidi.Props.C04
